@@ -666,9 +666,9 @@ func main() {
 		Fixed: [][]string{
 			{c, "add 0 30000000000 30000000000 1700000000 0 1000 1:10000000000 2:20000000000", "dump", "trigger 0 1700000250", "dump", "unlock 1 1700000500", "unlock 0 1700000500",
 				"stop 0 2 1700000600", "dump", "trigger 0 1700001000", "dump", "delete 0 1700001001", "dump"},
-			// DESIGN §7 #5: amount 2^53+3, no excess: at expiry MultFloat64(left, 1.0) = 2^53+4 > balance
+			// DESIGN §7 #5 (repaired by 9976375): amount 2^53+3, no excess: at expiry MultFloat64(left, 1.0) = 2^53+4, capped to what is left
 			{c, "add 0 9007199254740995 9007199254740995 1700000000 0 1000 1:9007199254740995", "dump", "trigger 0 1700001000", "dump", "delete 0 1700001001", "dump", "unlock 1 1700002000"},
-			// the same with one token of excess: the destination receives more than its amount, then the pool is stuck
+			// the same with one token of excess (before the repair the destination received more than its amount and the pool got stuck)
 			{c, "add 0 9007199254740996 9007199254740996 1700000000 0 1000 1:9007199254740995", "dump", "trigger 0 1700001000", "dump", "unlock 0 1700001001", "delete 0 1700001002", "dump"},
 			{c, "dump", "trigger 0 5", "add 0 - 100000000 1700000000 0 1000 1:5", "add 0 5 100000000 1700000000 0 1000 1:5", "add 9 5 5 5 5 5", "frob"},
 		},
